@@ -49,6 +49,30 @@ CHECKS = {
     note="components range over their whole documented domain (8-bit ints, real percentages, hue in [-720,1080], alpha in [0,1]); spelling dimension is a finite "
          "template list; decimal literal -> double assumed exact; hex strings outside the symbolic claim",
     design="3 C07", technique=TECH, thorough=True),
+ "C08": dict(
+    text="Bounded partial claim. (1) z3's regex theory proves over ALL strings that every value on which the variable resolver's pattern finds a var(--N ..) reference is "
+         "one the updater's pattern can rewrite (patterns read from the current source). (2) The real click callback `main` is executed symbolically, in-process, on "
+         "16 stylesheet skeletons whose colours are symbolic rgb() tokens passing through tinycss2 for real, make_readable a recording stub: every rule counted exactly once, "
+         "'already readable' only when the reference ratio meets 4.5/7.0, an adjusted rule's declaration or custom property in the written _cm.css IS the reported colour, "
+         "make_readable called on the rule's own pair with (mode, premium), failures listed and unchanged.",
+    note="claimed ONLY for instances of the listed skeletons (one at-rule level, rgb() colours); arbitrary stylesheets are outside; one known finding (shared custom property "
+         "rewritten per rule) is recorded in known_findings.txt; two genuine defects were repaired by fix: commits",
+    design="3 C08", technique=TECH + "; z3 regular-expression theory for the var() pattern lemma", thorough=True),
+ "C10": dict(
+    text="The real rgb_to_oklch / oklch_to_rgb / safe wrappers run symbolically: forward over all 2^24 colours, L/C/H and the OKLab a,b equal the reference written from "
+         "Ottosson's matrices (cube root, sqrt, atan2 as UFs: decided by congruence, any changed coefficient/sign/branch is a linear witness), ranges proved; inverse over "
+         "all real (L,C,H) in the box: pre-rounding channel == 255*gamma(clip(reference inverse)), always a valid 8-bit colour, (0,0,.) black, (1,0,.) white; safe variants "
+         "return the plain result on valid input and a valid colour on invalid triples.",
+    note="equivalence with the published formula, not numeric magnitudes: the exhaustive lossless round trip (needs values of cbrt/cos/sin/atan2) is NOT claimed; grey-within-one-unit "
+         "for C=0 not claimed; doubles as reals",
+    design="3 C10", technique=TECH, thorough=True),
+ "C11": dict(
+    text="Lab: the real rgb_to_xyz/xyz_to_lab on all 2^24 colours equals the CIE reference on all 64 branch combinations. CIEDE2000: the real calculate_delta_e_2000, fed free "
+         "real Lab triples through the harness-side replacement of the RGB->Lab lookup, is explored jointly with an independently transcribed Sharma-Wu-Dalal reference under "
+         "shared UFs; on every feasible path of the hue-wrap / zero-chroma logic the results are equal, >= 0 and no exception can be raised (radicands, denominators). "
+         "The reference is validated against the 34 published pairs on every run.",
+    note="formula equivalence by congruence over uninterpreted sqrt/atan2/sin/cos/exp/x^7; numeric magnitudes (e.g. zero only for identical colours) not decided; symmetry in the thorough tier",
+    design="3 C11", technique=TECH, thorough=True),
  "C12": dict(
     text="The real make_readable_bulk runs symbolically on lists of symbolic entries (tuple/list/string colours, invalid entries, symbolic large/mode/very_readable) with "
          "ColorPair.make_readable as a recording stub: one result per entry in order, each the stub's result for a pair built from that entry's own arguments, status = "
